@@ -1,11 +1,11 @@
 ----------------------------- MODULE MC_LabObs -----------------------------
-(* instance for trace validation of recorded histories: two containers, a 3x4 and a 2x3 plate *)
+(* instance for trace validation of recorded histories: three containers (one receives every newly made solution), a 3x4 and a 2x3 plate *)
 EXTENDS LabObs
 NoCases == <<>>
 NoSet   == {}
 Subst4  == {"W", "D", "N", "E"}
 CC_Regions == [all |-> SL!All]
 CC_CapStep == One
-OBS_Names == {"s", "t", "p", "q"}
-OBS_Shape == [s |-> <<0, 0>>, t |-> <<0, 0>>, p |-> <<3, 4>>, q |-> <<2, 3>>]
+OBS_Names == {"s", "t", "o", "p", "q"}
+OBS_Shape == [s |-> <<0, 0>>, t |-> <<0, 0>>, o |-> <<0, 0>>, p |-> <<3, 4>>, q |-> <<2, 3>>]
 =============================================================================
